@@ -21,7 +21,8 @@ ASSUMPTIONS = ["vp/collmodel.py is the documented value/delta semantics of the s
 FLOORS = {"ticks_checked": {"quick": 4000, "thorough": 60000}, "cancelling_cycles": {"quick": 100, "thorough": 1500},
           "nested_child_deltas": {"quick": 500, "thorough": 8000}, "window_ticks": {"quick": 200, "thorough": 3000},
           "removed_values_read": {"quick": 200, "thorough": 3000}, "duration_window_ticks": {"quick": 2000, "thorough": 30000},
-          "window_growth_after_wrap": {"quick": 100, "thorough": 1500}}
+          "window_growth_after_wrap": {"quick": 100, "thorough": 1500},
+          "whole_set_assignments": {"quick": 400, "thorough": 6000}, "whole_set_assignments_of_the_empty_set": {"quick": 150, "thorough": 2000}}
 BATCH = 20
 
 
@@ -105,10 +106,12 @@ def check_windows(case, tr):
 def generate(rng, tier, seed):
     from . import gen_coll
     gen_coll.WINDOW_CLEARS = True
+    gen_coll.WHOLE_SET_ASSIGN = True
     try:
         return _generate(rng, tier, seed)
     finally:
         gen_coll.WINDOW_CLEARS = False
+        gen_coll.WHOLE_SET_ASSIGN = False
 
 
 def _generate(rng, tier, seed):
@@ -272,7 +275,9 @@ def check(case, tr):
                 prev = node.value()
     for msg in V[:6]:
         res.violations.append(Violation(msg))
-    C.update({"ticks_checked": ticks, "nonempty_delta_ticks": nonempty, "cancelling_cycles": cancelling})
+    whole = [op for sc in writes.values() for _, ops in sc for op in ops if ":" in op]
+    C.update({"ticks_checked": ticks, "nonempty_delta_ticks": nonempty, "cancelling_cycles": cancelling,
+              "whole_set_assignments": len(whole), "whole_set_assignments_of_the_empty_set": sum(1 for op in whole if op.endswith(":"))})
     res.counters = C
     res.nontrivial = nonempty >= 3
     return res
